@@ -72,9 +72,14 @@ Print Assumptions C02_five_seconds.
 
 (** regenerated ordering facts the control steps of Model/Reconf.v rest on: a stage that is handing a
     chunk on cannot be interrupted (sends are plain statements, never select arms); the per-connection
-    state of a stateful toxic survives every restart; RemoveToxic drops the stub on every way out *)
+    state of a stateful toxic survives every restart; RemoveToxic drops the stub on every way out; and the
+    shape of the operations that Model/ReconfRun.v follows: attributes and toxicity are stored before the
+    stages are interrupted, InterruptToxic has no give-up, the operations reach stages through it alone,
+    AddToxic connects and starts stages only after the interrupt succeeded, Run decides on every start *)
 Theorem C02_code_facts :
-  toxic_sends_are_plain = true /\ state_created_only_for_new_stubs = true /\ remove_always_splices = true.
+  toxic_sends_are_plain = true /\ state_created_only_for_new_stubs = true /\ remove_always_splices = true /\
+  update_writes_before_interrupt = true /\ interrupt_is_unbounded = true /\ ops_use_plain_interrupt = true /\
+  add_connects_after_interrupt = true /\ run_decides_on_every_start = true.
 Proof. repeat split; reflexivity. Qed.
 Print Assumptions C02_code_facts.
 
